@@ -502,12 +502,13 @@ Proof.
         destruct (has (files0 e) (FMean (fn o l))) eqn:Em.
         -- destruct (S l =? total o); eexists _, _, _, _; (split; [reflexivity|]);
              [discriminate|]. intros _ _ _. cbn. exact H3.
-        -- destruct H4 as [H4|H4]; [discriminate|]. rewrite H4. cbn.
+        -- destruct H4 as [H4|H4]; [discriminate|]. rewrite H4.
+           change (1 =? 0) with false. change (negb (1 =? 1)) with false. cbv iota.
            destruct (S l =? total o); eexists _, _, _, _; (split; [reflexivity|]);
              [discriminate|]. intros _ _ _. cbn. exact H3.
       * eexists _, _, _, _. split; [reflexivity|]. intros _ _ Hn. congruence.
     + eexists _, _, _, _. split; [reflexivity|]. intros _ _ Hn. congruence.
-  - eexists _, _, _, _. split; [reflexivity|]. intros _ Hn. discriminate.
+  - eexists _, _, _, _. split; [reflexivity|]. intros _ Hn. congruence.
 Qed.
 
 Lemma total_ok : forall o e, valid o e -> exists r, run fixed o e = Ok r.
@@ -530,4 +531,144 @@ Proof.
   destruct (dry o) eqn:Hd.
   - destruct (loop_dry_ok o e (seq first (total o - first)) s Hd) as (s' & Hl). rewrite Hl. eauto.
   - destruct (loop_ok o e (total o - first) first s Hsic Hd (Hinv eq_refl)) as (s' & Hl). rewrite Hl. eauto.
+Qed.
+
+(* ---- file names follow the save strategy ---- *)
+Definition fname_of (g : file) : option fname :=
+  match g with
+  | FSample f _ | FMean f | FEnergyHist f | FEnergyPlot f | FEnergyChangePlot f
+  | FMinisanityHist f | FMinisanityPlot f | FExport f => Some f
+  | _ => None
+  end.
+Definition name_ok (o : opts) (g : file) : Prop :=
+  match fname_of g with
+  | None => True
+  | Some Latest => save_all o = false
+  | Some (Iter i) => save_all o = true /\ i < total o
+  end.
+
+Lemma iter_file_name_ok : forall o i g, i < total o -> iter_file o i g -> name_ok o g.
+Proof.
+  intros o i g Hi H. unfold iter_file in H. unfold name_ok.
+  assert (Hfn : match fn o i with Latest => save_all o = false | Iter j => save_all o = true /\ j < total o end).
+  { unfold fn. destruct (save_all o); auto. }
+  repeat (destruct H as [->|H]; [cbn; auto|]). destruct H as (k & ->). cbn. exact Hfn.
+Qed.
+
+Definition new_ok (o : opts) (e : env) (s : lstate) : Prop :=
+  forall g, has (files s) g = true -> has (files0 e) g = true \/ name_ok o g.
+
+Lemma has_report_block : forall o e i s s1 g,
+  report_block fixed o e i s = Ok s1 -> has (files s1) g = true ->
+  iter_file o i g \/ has (files s) g = true.
+Proof.
+  intros o e i s s1 g. unfold report_block, glob_set. cbn [fix_global fixed].
+  destruct (outdir o) eqn:Ho; [|intros H; injection H as <-; auto].
+  destruct (negb (i =? 0) && negb _); [discriminate|].
+  intros H; injection H as <-.
+  assert (Hg : gfn o e i = fn o i) by (unfold gfn; rewrite Ho; reflexivity). rewrite Hg.
+  intros H. destruct (plot_m o);
+    repeat (apply has_gwrite_out in H; [|assumption]; destruct H as [->|H]; [left; unfold iter_file; auto 20|]);
+    auto.
+Qed.
+
+Lemma iteration_new_ok : forall o e i s s' b,
+  i < total o -> iteration fixed o e i s = Ok (s', b) -> new_ok o e s -> new_ok o e s'.
+Proof.
+  intros o e i s s' b Hi. rewrite iteration_eq. cbn [fix_pop fixed].
+  destruct (dry o).
+  - intros H Hn; injection H as <- _. intros g Hg. apply Hn.
+    cbn in Hg. destruct (files_enter o i s) as [E1 _]. rewrite E1 in Hg. exact Hg.
+  - destruct (negb (sic o) && _); [discriminate|].
+    destruct (report_block _ _ _ _ _) as [s1|] eqn:Hr; [|discriminate].
+    intros H Hn. rewrite (surjective_pairing (callbacks fixed o i s1)) in H. injection H as <- _.
+    intros g Hg. destruct (files_callbacks fixed o i s1) as [C1 _]. rewrite C1 in Hg.
+    apply (has_report_block _ _ _ _ _ _ Hr) in Hg as [Hg|Hg];
+      [right; eapply iter_file_name_ok; eassumption|].
+    apply has_save_block in Hg as [Hg|Hg]; [right; eapply iter_file_name_ok; eassumption|].
+    destruct (files_minimise o i (enter o i s)) as [M1 _]. destruct (files_enter o i s) as [E1 _].
+    rewrite M1, E1 in Hg. apply Hn; assumption.
+Qed.
+
+Lemma loop_new_ok : forall o e n i s s',
+  i + n <= total o \/ n = 0 -> loop fixed o e (seq i n) s = Ok s' -> new_ok o e s -> new_ok o e s'.
+Proof.
+  intros o e n. induction n; intros i s s' Hb H Hn; cbn [seq loop] in H.
+  - injection H as <-; assumption.
+  - destruct (iteration fixed o e i s) as [[s1 b]|] eqn:Hi; [|discriminate].
+    assert (Hlt : i < total o) by (destruct Hb; [lia|discriminate]).
+    pose proof (iteration_new_ok _ _ _ _ _ _ Hlt Hi Hn) as Hn1.
+    destruct b; [injection H as <-; assumption|].
+    eapply IHn; [|eassumption|assumption]. left; lia.
+Qed.
+
+Lemma prepare_new_ok : forall v o e s first loaded early,
+  prepare v o e = Ok (s, first, loaded, early) -> new_ok o e s.
+Proof.
+  intros v o e s first loaded early. unfold prepare, new_ok.
+  destruct (outdir o); [|intros H; injection H as <- _ _ _; cbn; auto].
+  destruct (last0 e) as [l|].
+  - destruct (resume o).
+    + destruct (has (files0 e) (FMean (fn o l))).
+      * destruct (S l =? total o); [intros H; injection H as <- _ _ _; cbn; auto|].
+        destruct (has _ FRandomState && _); [|discriminate].
+        intros H; injection H as <- _ _ _; cbn; auto.
+      * destruct (count_samples _ _ _ _ =? 0); [discriminate|].
+        destruct (negb _); [discriminate|].
+        destruct (S l =? total o); [intros H; injection H as <- _ _ _; cbn; auto|].
+        destruct (has _ FRandomState && _); [|discriminate].
+        intros H; injection H as <- _ _ _; cbn; auto.
+    + destruct (negb (fix_iglobal v) && negb (sanity o)); [discriminate|].
+      intros H; injection H as <- _ _ _. intros g Hg. apply has_write in Hg as [->|Hg]; [right; exact I|auto].
+  - destruct (negb (fix_iglobal v) && negb (sanity o)); [discriminate|].
+    intros H; injection H as <- _ _ _. intros g Hg. apply has_write in Hg as [->|Hg]; [right; exact I|auto].
+Qed.
+
+Lemma files_follow_strategy : forall o e r g,
+  run fixed o e = Ok r -> has (r_files r) g = true -> has (files0 e) g = true \/ name_ok o g.
+Proof.
+  intros o e r g. rewrite run_eq.
+  destruct (negb (outdir o) && resume o); [discriminate|].
+  destruct (total o =? 0); [discriminate|].
+  destruct (negb _); [discriminate|].
+  destruct (sanity o && negb (sic o) && _); [discriminate|].
+  destruct (prepare fixed o e) as [[[[s first] loaded] early]|] eqn:Hp; [|discriminate].
+  apply prepare_new_ok in Hp.
+  destruct early; [intros H; injection H as <-; cbn; apply Hp|].
+  destruct (negb (fresh o 0)); [discriminate|].
+  destruct (loop fixed o e _ s) as [s'|] eqn:Hl; [|discriminate].
+  intros H; injection H as <-. cbn.
+  apply (loop_new_ok o e (total o - first) first s s'); [lia|assumption|assumption].
+Qed.
+
+(* ---- the pinned control flow violates the property (witnesses, by computation) ---- *)
+Definition o_base : opts :=
+  mkOpts 3 (fun _ => 2) true false false false false false true false (fun _ => true) false (fun _ => false)
+         2 (fun _ => false) true false.
+Definition e_base : env := mkEnv 1 [] None 1 false false.
+
+Lemma valid_concrete : forall o e,
+  1 <= total o -> resume o = false -> inspect_args o <= 2 -> sic o = true -> fresh o 0 = true ->
+  1 <= depth0 e -> valid o e.
+Proof.
+  intros o e H1 H2 H3 H4 H5 H6. unfold valid. repeat split; auto; try congruence.
+Qed.
+
+Lemma each_fix_needed :
+  (exists o e r, valid o e /\ run (mkVar false true true) o e = Ok r /\ r_depth r <> depth0 e /\ r_state_loaded r = false) /\
+  (exists o e, valid o e /\ run (mkVar true false true) o e = Err EUnbound) /\
+  (exists o e r, valid o e /\ outdir o = false /\ run (mkVar true true false) o e = Ok r /\ r_foreign r <> []).
+Proof.
+  split; [|split].
+  - exists (mkOpts 3 (fun _ => 2) true false false false false false true true (fun _ => true) false
+                   (fun _ => false) 2 (fun _ => false) true false), e_base.
+    eexists. split; [apply valid_concrete; cbn; auto|].
+    split; [vm_compute; reflexivity|]. cbn. split; [discriminate|reflexivity].
+  - exists (mkOpts 2 (fun _ => 2) true true false false false false false false (fun _ => true) false
+                   (fun _ => false) 2 (fun _ => false) true false), e_base.
+    split; [apply valid_concrete; cbn; auto|vm_compute; reflexivity].
+  - exists (mkOpts 1 (fun _ => 2) true false false false false false true false (fun _ => true) false
+                   (fun _ => false) 2 (fun _ => false) true false), (mkEnv 1 [] None 1 true false).
+    eexists. split; [apply valid_concrete; cbn; auto|].
+    split; [reflexivity|]. split; [vm_compute; reflexivity|]. cbn. discriminate.
 Qed.
